@@ -376,7 +376,7 @@ func (dr *dirRepo) BlobCreate(opts ...BlobOpt) (BlobCreator, string, error) {
 		}
 	}
 	if !dr.exists {
-		err := dr.repoInit(false)
+		err := dr.repoInit(conf.locked)
 		if err != nil {
 			return nil, "", err
 		}
@@ -395,8 +395,10 @@ func (dr *dirRepo) BlobCreate(opts ...BlobOpt) (BlobCreator, string, error) {
 			return nil, "", types.ErrBlobExists
 		}
 	}
-	dr.mu.Lock()
-	defer dr.mu.Unlock()
+	if !conf.locked {
+		dr.mu.Lock()
+		defer dr.mu.Unlock()
+	}
 	sessionID, err := genSessionID()
 	if err != nil {
 		return nil, "", fmt.Errorf("failed generating sessionID: %w", err)
